@@ -504,9 +504,91 @@ def r4_limits_reestablished(repo=None):
     return r
 
 
+def r5_growth_rechecks_the_limit(repo=None):
+    """'... once a newly reported file has been handled every configured limit holds again' and 'bookkeeping equals the truth': every
+    place where the size mixin *increases* the tracked total must be followed by the limit enforcement hook before control returns
+    to the event entry points.  For each `self.active_size += ...` in a hook H of the size mixin: either every normal path from
+    the increase to H's exit calls the enforcement hook, or every call site `self.H(...)` in the handler classes is followed by it
+    on every normal path of the caller (the add path: _add_to_queue is followed by _expire in _add_record).  The modify hook had
+    neither: a tracked file that grows (`modified` event, the normal way Digital Metadata files are written) left the total over
+    the limit until some other file was reported."""
+    r = Rule("C16.R5", "every increase of the tracked total size is followed by the limit enforcement")
+    ro = rbroles.roles(repo)
+    m = ro.m
+    mx = ro.size_mixin
+    EXP = "self." + ro.expire
+    n_sites = 0
+    classes = [BASE] + list(ro.mixins)
+    for name, f in m.methods(mx).items():
+        q = "%s.%s" % (mx, name)
+        incs = [n for n in pyfront.walk_no_nested(f) if isinstance(n, ast.AugAssign) and isinstance(n.op, ast.Add)
+                and pyfront.dotted(n.target) == "self.active_size"]
+        if not incs:
+            continue
+        g = m.cfg(q)
+        exp_nodes = [n.id for n in g.nodes if any(pyfront.call_name(c) == EXP for c in pyfront.node_calls(n))]
+        for inc in incs:
+            n_sites += 1
+            node = [n for n in g.nodes if n.ast is inc]
+            if not node:
+                raise AnalysisError("%s: increment not found in the CFG" % q)
+            site = "%s:%s %s `%s`" % (m.rel, inc.lineno, q, norm(ast.unparse(inc)))
+            if g.exit.id not in g.reach([node[0].id], avoid=exp_nodes, skip_labels=("exc",)) and exp_nodes:
+                r.ok(site, "followed by %s(...) on every normal path of the hook" % EXP)
+                continue
+            # callers of the hook
+            callers = []
+            for cls in classes:
+                for cname, cf in m.methods(cls).items():
+                    if cname == name and cls != mx:
+                        continue
+                    for c in pyfront.walk_no_nested(cf):
+                        if isinstance(c, ast.Call) and pyfront.call_name(c) == "self." + name:
+                            callers.append((cls, cname, c))
+            bad = None
+            for cls, cname, c in callers:
+                cq = "%s.%s" % (cls, cname)
+                cg = m.cfg(cq)
+                cn = [n for n in cg.nodes if any(x is c for x in pyfront.node_calls(n))]
+                cexp = [n.id for n in cg.nodes if any(pyfront.call_name(x) == EXP for x in pyfront.node_calls(n))]
+                if not cn:
+                    raise AnalysisError("%s: call of %s not found in the CFG" % (cq, name))
+                if cg.exit.id in cg.reach([b for b, _l in cg.succ[cn[0].id]], avoid=cexp, skip_labels=("exc",)):
+                    # the caller may itself be a hook whose callers enforce the limit (one more level)
+                    outer = []
+                    for cls2 in classes:
+                        for cname2, cf2 in m.methods(cls2).items():
+                            for c2 in pyfront.walk_no_nested(cf2):
+                                if isinstance(c2, ast.Call) and pyfront.call_name(c2) == "self." + cname and cname2 != cname:
+                                    outer.append((cls2, cname2, c2))
+                    covered = bool(outer) and cname.startswith("_")
+                    for cls2, cname2, c2 in outer:
+                        og = m.cfg("%s.%s" % (cls2, cname2))
+                        on = [n for n in og.nodes if any(x is c2 for x in pyfront.node_calls(n))]
+                        oexp = [n.id for n in og.nodes if any(pyfront.call_name(x) == EXP for x in pyfront.node_calls(n))]
+                        if not on or og.exit.id in og.reach([b for b, _l in og.succ[on[0].id]], avoid=oexp, skip_labels=("exc",)):
+                            covered = False
+                    if not covered:
+                        bad = (cq, c)
+                        break
+            if not callers:
+                bad = (q, inc)
+            if bad is None:
+                r.ok(site, "every caller of the hook (%s) goes on to %s(...)" % (", ".join(sorted({"%s.%s" % (a, b) for a, b, _ in callers})), EXP))
+            else:
+                r.violation(m.rel, q, norm(ast.unparse(inc)), "the tracked total can grow here and control returns to `%s` without the limit "
+                            "being enforced: a tracked file that grows in place (a `modified` event - how Digital Metadata files are "
+                            "written) leaves the ringbuffer over its size limit until some other file is reported, and a later sorted "
+                            "batch can then re-add a record for a file the ringbuffer itself deleted" % bad[0], line=inc.lineno)
+    if n_sites < 2:
+        raise AnalysisError("%s: %d increases of active_size found, 2 confirmed" % (mx, n_sites))
+    r.guard(2)
+    return r
+
+
 def rules(repo=None):
     return [lambda: r1_only_tracked_paths_deleted(repo), lambda: r2_accounting_pairs_with_mutation(repo),
-            lambda: r3_oldest_first_and_owners(repo), lambda: r4_limits_reestablished(repo)]
+            lambda: r3_oldest_first_and_owners(repo), lambda: r4_limits_reestablished(repo), lambda: r5_growth_rechecks_the_limit(repo)]
 
 
 EXPLANATION = (
